@@ -10,7 +10,7 @@ from pmc.engine.tol import alg_close, exact_equal
 PROPERTY = 'C18'
 RULE = ("explicit-state BFS: bases {float(4,), float(2,3), complex(3,), python float} x {no initial sensitivity, "
         "initial zero sensitivity (keep_alloc)}; slices: basic, stepped, integer, integer array, tuple of slices, tuple of "
-        "integer arrays, nested basic; ~40 operations per base (assign state / sensitivity through base or slice, "
+        "integer arrays, tuple mixing a slice with an integer array, nested basic; ~40 operations per base (assign state / sensitivity through base or slice, "
         "add_sensitivity with None / fresh array (mutated afterwards by the harness) / same object twice / same object "
         "to two signals, reset(default|keep|drop) on base, reset on slices); every operation is compared with the model "
         "through the base AND every slice; a state is distinct by full byte content; non-trivial = a sensitivity exists")
@@ -28,7 +28,8 @@ BASES = {
                        'r': [SL[::-2]]}),
     'm23': dict(state=lambda: np.arange(1., 7.).reshape(2, 3),
                 slices={'r': [SL[0, :]], 'c': [SL[:, 1:]], 't': [(slice(0, 2), slice(0, 2))],
-                        'f': [(np.array([0, 1]), np.array([2, 0]))], 'e': [SL[1, 2]], 'n': [SL[:, 1:], SL[1, :]]}),
+                        'f': [(np.array([0, 1]), np.array([2, 0]))], 'e': [SL[1, 2]], 'n': [SL[:, 1:], SL[1, :]],
+                        'x': [(slice(None), np.array([2, 0]))], 'y': [(np.array([1, 0]), slice(1, 3))]}),
     'c3': dict(state=lambda: np.array([1 + 1j, 2 - 1j, 0.5j]),
                slices={'a': [SL[0:2]], 'f': [np.array([2, 0])], 'i': [1]}),
     's': dict(state=lambda: 2.5, slices={}),
@@ -48,7 +49,7 @@ def value(kind, what, shape, seed, cplx):
     return v
 
 
-REDUCED = {'v4': ['a', 'f', 'n'], 'm23': ['t', 'f'], 'c3': ['a', 'f'], 's': []}
+REDUCED = {'v4': ['a', 'f', 'n'], 'm23': ['t', 'f', 'x'], 'c3': ['a', 'f'], 's': []}
 
 
 def alphabet(kind, reduced=False):
@@ -247,6 +248,8 @@ def slice_kind(kind, name):
     if isinstance(c, tuple):
         if all(isinstance(x, np.ndarray) for x in c):
             return 'tuple_intarray'
+        if any(isinstance(x, np.ndarray) for x in c):
+            return 'tuple_slice_and_intarray'
         if any(isinstance(x, (int, np.integer)) for x in c):
             return 'tuple_int'
         return 'tuple_slices'
